@@ -629,7 +629,8 @@ def run_e2e(ctx, host, nrelease, release, tooltags):
 sub="$1"
 k=1
 if [ -n "$C10_GOLOG" ]; then
-  k=$(grep -c "^$sub	" "$C10_GOLOG" 2>/dev/null); k=$((k+1))
+  k=$(grep -c "^$sub$" "$C10_GOCOUNT" 2>/dev/null); k=$((k+1))      # k-th call of this subcommand in the whole history of the project
+  echo "$sub" >> "$C10_GOCOUNT"
   printf '%s\\t%s\\t%s\\t%s\\n' "$sub" "${GOOS-<unset>}" "${GOARCH-<unset>}" "${CGO_ENABLED-<unset>}" >> "$C10_GOLOG"
 fi
 oldifs=$IFS; IFS=';'
@@ -707,6 +708,7 @@ exec go "$@"
         if j and j.get("gocmd"):
             pre = ["-gocmd", gowrap] + pre
             env["C10_GOLOG"] = log
+            env["C10_GOCOUNT"] = os.path.join(os.path.dirname(log), "gocount")
             env["C10_GOPLAN"] = j.get("goplan", "")
         r = mg.run(cwd, pre + args, env=env, timeout=timeout, cache=cache)
         if r["rc"] != 0:          # the go tool occasionally fails under heavy load (build cache races): once more before believing it
